@@ -17,6 +17,8 @@ import (
 	"tunnox-core/internal/cloud/constants"
 	"tunnox-core/internal/cloud/models"
 	"tunnox-core/internal/cloud/stats"
+	"tunnox-core/internal/core/idgen"
+	"tunnox-core/internal/core/storage"
 	"tunnox-core/internal/packet"
 	"tunnox-core/internal/protocol/session"
 	"tunnox-core/internal/protocol/session/tunnel"
@@ -26,10 +28,13 @@ import (
 )
 
 const (
-	watchdog = 5 * time.Second               // DESIGN.md Appendix B: "bounded time" = 5 s
-	gateWait = 3 * time.Second               // a modelled copier step must arrive at its gate within this (limiter waits are <= 2 s)
-	paceIn   = 150 * time.Millisecond        // under the "slow" limit: time given to a copier to enter the pacing of a chunk
-	copyBuf  = int(constants.CopyBufferSize) // the bridge's copy buffer (32 KiB)
+	watchdog   = 5 * time.Second               // DESIGN.md Appendix B: "bounded time" = 5 s
+	heartbeat  = 250 * time.Millisecond        // HeartbeatTimeout of scripts with a hold step (packet-path attach)
+	sweepEvery = 80 * time.Millisecond         // CleanupInterval of those scripts
+	holdFor    = 1100 * time.Millisecond       // a hold: more than 3 x (heartbeat + sweepEvery)
+	gateWait   = 3 * time.Second               // a modelled copier step must arrive at its gate within this (limiter waits are <= 2 s)
+	paceIn     = 150 * time.Millisecond        // under the "slow" limit: time given to a copier to enter the pacing of a chunk
+	copyBuf    = int(constants.CopyBufferSize) // the bridge's copy buffer (32 KiB)
 )
 
 var (
@@ -156,8 +161,10 @@ type fakeConn struct {
 	failed   bool     // the connection broke: reads and writes fail, `in` is gone
 	withData bool     // the read that takes the last bytes returns them together with io.EOF / the error
 	closed   bool     // Close() was called on the server side (the bridge's doing): the end observes closure
-	rWait    int      // Read calls currently parked on this connection
-	rSeen    bool     // the bridge has called Read on this connection at least once
+	hs       bool     // packet phase of a tunnel connection (Handshake / TunnelOpen): no gates, replies go to hsOut
+	hsOut    []byte
+	rWait    int  // Read calls currently parked on this connection
+	rSeen    bool // the bridge has called Read on this connection at least once
 	closeT   time.Time
 }
 
@@ -166,13 +173,23 @@ type fakeAddr string
 func (a fakeAddr) Network() string { return "fake" }
 func (a fakeAddr) String() string  { return string(a) }
 
-func (c *fakeConn) LocalAddr() net.Addr              { return fakeAddr("server") }
-func (c *fakeConn) RemoteAddr() net.Addr             { return fakeAddr(fmt.Sprintf("%s%d", c.e.name, c.gen)) }
+func (c *fakeConn) LocalAddr() net.Addr { return fakeAddr("server") }
+func (c *fakeConn) RemoteAddr() net.Addr {
+	if c == nil {
+		nilConnCalls.Add(1)
+		return fakeAddr("nil")
+	}
+	return fakeAddr(fmt.Sprintf("%s%d", c.e.name, c.gen))
+}
 func (c *fakeConn) SetDeadline(time.Time) error      { return nil }
 func (c *fakeConn) SetReadDeadline(time.Time) error  { return nil }
 func (c *fakeConn) SetWriteDeadline(time.Time) error { return nil }
 
 func (c *fakeConn) Read(p []byte) (int, error) {
+	if c == nil {
+		nilConnCalls.Add(1)
+		return 0, errNilConn
+	}
 	w, e := c.w, c.e
 	w.mu.Lock()
 	defer w.mu.Unlock()
@@ -181,9 +198,9 @@ func (c *fakeConn) Read(p []byte) (int, error) {
 		if c.closed {
 			return 0, errClosed
 		}
-		if !e.gated || e.rPermits > 0 {
+		if !e.gated || e.rPermits > 0 || c.hs {
 			take := func() {
-				if e.gated {
+				if e.gated && !c.hs {
 					e.rPermits--
 				}
 				e.rTaken++
@@ -231,9 +248,17 @@ func (c *fakeConn) Read(p []byte) (int, error) {
 }
 
 func (c *fakeConn) Write(p []byte) (int, error) {
+	if c == nil {
+		nilConnCalls.Add(1)
+		return 0, errNilConn
+	}
 	w, e := c.w, c.e
 	w.mu.Lock()
 	defer w.mu.Unlock()
+	if c.hs && !c.closed { // reply packets of the server during the packet phase
+		c.hsOut = append(c.hsOut, p...)
+		return len(p), nil
+	}
 	for {
 		if c.closed {
 			return 0, errClosed
@@ -284,7 +309,15 @@ func (c *fakeConn) deliver(p []byte) {
 	c.w.progress.Add(1)
 }
 
+// CloseWrite: the bridge half-closes towards this end (cross-node forwarding does): the end sees
+// end-of-stream - closure observed - and, like a client that gets EOF, closes its connection.
+func (c *fakeConn) CloseWrite() error { return c.Close() }
+
 func (c *fakeConn) Close() error {
+	if c == nil {
+		nilConnCalls.Add(1)
+		return errNilConn
+	}
 	c.w.mu.Lock()
 	if !c.closed {
 		c.closed, c.closeT = true, time.Now()
@@ -300,6 +333,7 @@ type fakeCloud struct {
 	mapping *models.PortMapping
 	mu      sync.Mutex
 	stats   *stats.TrafficStats
+	stalled atomic.Bool // the statistics backend does not answer
 }
 
 func (f *fakeCloud) GetPortMapping(id string) (*models.PortMapping, error) {
@@ -310,6 +344,9 @@ func (f *fakeCloud) GetPortMapping(id string) (*models.PortMapping, error) {
 	return &m, nil
 }
 func (f *fakeCloud) UpdatePortMappingStats(id string, s *stats.TrafficStats) error {
+	for f.stalled.Load() {
+		time.Sleep(500 * time.Microsecond)
+	}
 	f.mu.Lock()
 	c := *s
 	f.stats = &c
@@ -373,16 +410,17 @@ type step struct {
 }
 
 type beh struct {
-	Lim   string `json:"lim"`
-	Steps []step `json:"steps"`
-	Mode  string `json:"mode"`  // gated | free
-	Via   string `json:"via"`   // conn | stream
-	FinE  string `json:"fin_e"` // ending chosen by the driver when the script has none
-	FinK  string `json:"fin_k"`
-	Drain bool   `json:"drain"`           // free mode: wait for quiescence before the scripted ending
-	Big   int    `json:"big"`             // real size of class "big"
-	Route bool   `json:"route,omitempty"` // the server has a tunnel routing table (cluster deployment)
-	Loops int    `json:"loops,omitempty"` // a racy free-running script is executed this many times (the last run is recorded)
+	Lim     string `json:"lim"`
+	Steps   []step `json:"steps"`
+	Mode    string `json:"mode"`  // gated | free
+	Via     string `json:"via"`   // conn | stream
+	FinE    string `json:"fin_e"` // ending chosen by the driver when the script has none
+	FinK    string `json:"fin_k"`
+	Drain   bool   `json:"drain"`              // free mode: wait for quiescence before the scripted ending
+	Big     int    `json:"big"`                // real size of class "big"
+	AttachK string `json:"attach_k,omitempty"` // how the finishing phase attaches a target the script did not attach
+	Route   bool   `json:"route,omitempty"`    // the server has a tunnel routing table (cluster deployment)
+	Loops   int    `json:"loops,omitempty"`    // a racy free-running script is executed this many times (the last run is recorded)
 }
 
 type run struct {
@@ -396,6 +434,9 @@ type run struct {
 	tc         *fakeConn
 	tst        stream.PackageStreamer
 	isAttached bool
+	xn         *xnode
+	cloud      *fakeCloud
+	harness    string       // something of the harness itself went wrong (=> driver error)
 	lagMax     atomic.Int64 // worst scheduling lag seen by the canary (ns)
 }
 
@@ -500,6 +541,21 @@ func (r *run) targetConn() (*fakeConn, stream.PackageStreamer) {
 }
 
 func (r *run) attach() {
+	switch r.b.kindOfAttach() {
+	case "pkt":
+		r.isAttached = true
+		if err := r.attachPkt(); err != nil {
+			r.harness = "pkt attach: " + err.Error()
+		}
+		r.awaitCopiers()
+		return
+	case "xnode":
+		r.isAttached = true
+		if err := r.attachXnode(); err != nil {
+			r.harness = "xnode attach: " + err.Error()
+		}
+		return
+	}
 	c, st := r.targetConn()
 	r.isAttached = true
 	tc := session.CreateTunnelConnection("conn-T", c, st, dstClient, mappingID, tunnelID)
@@ -508,12 +564,26 @@ func (r *run) attach() {
 	r.w.attachAt = time.Now()
 	r.w.mu.Unlock()
 	r.bridge.SetTargetConnection(tc) // what handleTargetBridge / handleExistingBridge do
+	r.awaitCopiers()
+}
+
+// awaitCopiers: gated scripts continue once both copiers sit in their first Read (the model's Attach
+// step includes the start of the two goroutines).
+func (r *run) awaitCopiers() {
 	if r.b.Mode == "gated" && r.desync == "" {
-		// gated scripts continue once both copiers sit in their first Read (the model's Attach step
-		// includes the start of the two goroutines)
-		src := r.w.ends["S"].cur()
+		src, c := r.w.ends["S"].cur(), r.tc
 		r.poll(2*time.Second, func() bool { return (src.rWait > 0 && c.rWait > 0) || r.bridgeGone() })
 	}
+}
+
+// kindOfAttach: the attach step of the script says how the target gets attached ("" = local).
+func (b *beh) kindOfAttach() string {
+	for _, st := range b.Steps {
+		if st.A == "attach" && st.K != "" {
+			return st.K
+		}
+	}
+	return b.AttachK
 }
 
 func (r *run) attached() bool { return r.isAttached }
@@ -671,8 +741,26 @@ func executeOnce(env *fw.Env, b *beh) *fw.Trace {
 	}()
 	defer close(stop)
 
-	r.sm = session.NewSessionManager(nil, ctx)
+	nilConnCalls.Store(0)
+	hasHold := false
+	for _, st := range b.Steps {
+		hasHold = hasHold || st.A == "hold"
+	}
+	if b.kindOfAttach() == "pkt" {
+		// the packet path needs connection ids and the two handlers the server installs; a script that
+		// lets the tunnel outlive the heartbeat timeout runs with a short one (real: 60 s + 15 s sweep)
+		cfg := session.DefaultSessionConfig()
+		if hasHold {
+			cfg.HeartbeatTimeout, cfg.CleanupInterval = heartbeat, sweepEvery
+		}
+		r.sm = session.NewSessionManagerWithConfig(idgen.NewIDManager(storage.NewMemoryStorage(ctx), ctx), ctx, cfg)
+		r.sm.SetAuthHandler(stubAuth{})
+		r.sm.SetTunnelHandler(stubTunnelHandler{})
+	} else {
+		r.sm = session.NewSessionManager(nil, ctx)
+	}
 	defer within(2*time.Second, func() { r.sm.Close() })
+	defer func() { r.xn.shut() }()
 	routeDown := &atomic.Bool{}
 	if b.Route {
 		// the routing table lives in a shared store; its deletes can be made to fail (store unreachable)
@@ -688,6 +776,8 @@ func executeOnce(env *fw.Env, b *beh) *fw.Trace {
 	cloud := &fakeCloud{mapping: &models.PortMapping{ID: mappingID, ListenClientID: srcClient, TargetClientID: dstClient}}
 	cloud.mapping.Config.BandwidthLimit = realLimit(b.Lim)
 	r.sm.SetCloudControl(cloud)
+	r.cloud = cloud
+	defer cloud.stalled.Store(false)
 
 	w.logL(fw.Event{"ev": "Cfg", "lim": b.Lim, "mode": b.Mode, "via": b.Via})
 	if b.Mode == "gated" {
@@ -754,9 +844,18 @@ func executeOnce(env *fw.Env, b *beh) *fw.Trace {
 			dir := outOf(st.E)
 			w.mu.Lock()
 			c := en.cur()
-			if c.closed || c.inEOF || c.failed {
+			if c.inEOF || c.failed || (c.closed && w.ended != "none") {
 				w.mu.Unlock()
 				continue // the end has seen its connection go away: it stops writing
+			}
+			if c.closed {
+				// The server closed this connection although nobody ended the tunnel. The end's write
+				// still goes out (a write into a socket the peer has just closed succeeds locally) -
+				// these bytes are part of what the end sent, and they are gone.
+				w.log(fw.Event{"ev": "Send", "e": st.E, "dir": dir, "n": n})
+				en.sendOff += int64(n)
+				w.mu.Unlock()
+				continue
 			}
 			w.log(fw.Event{"ev": "Send", "e": st.E, "dir": dir, "n": n})
 			c.in = append(c.in, fill(tagOf(dir), en.sendOff, n))
@@ -800,6 +899,19 @@ func executeOnce(env *fw.Env, b *beh) *fw.Trace {
 			w.log(fw.Event{"ev": "Env", "a": st.A, "e": st.E})
 			w.cond.Broadcast()
 			w.mu.Unlock()
+		case "statstall":
+			cloud.stalled.Store(true)
+			w.logL(fw.Event{"ev": "Env", "a": "statstall"})
+		case "statresume":
+			cloud.stalled.Store(false)
+			w.logL(fw.Event{"ev": "Env", "a": "statresume"})
+		case "hold":
+			w.logL(fw.Event{"ev": "Env", "a": "hold"})
+			if b.kindOfAttach() == "pkt" {
+				time.Sleep(holdFor)
+			} else {
+				time.Sleep(20 * time.Millisecond)
+			}
 		case "routefail":
 			routeDown.Store(true)
 			w.logL(fw.Event{"ev": "Env", "a": "routefail"})
@@ -916,6 +1028,13 @@ func executeOnce(env *fw.Env, b *beh) *fw.Trace {
 		w.log(fw.Event{"ev": "Closure", "e": e, "seen": seen, "ms": ms})
 		w.mu.Unlock()
 	}
+	if r.cloud.stalled.Load() {
+		// The statistics backend has not answered all the while: the ends had to see the closure
+		// without it. It answers again now; the server may have waited for it before it forgets.
+		r.cloud.stalled.Store(false)
+		w.logL(fw.Event{"ev": "Env", "a": "statresume"})
+		deadline = time.Now().Add(watchdog)
+	}
 	wait(func() bool { return r.registered() == 0 })
 	w.logL(fw.Event{"ev": "Forgot", "n": r.registered()})
 	w.logL(fw.Event{"ev": "Counters", "sent": br.GetBytesSent(), "recv": br.GetBytesReceived()})
@@ -928,6 +1047,14 @@ func (r *run) result() *fw.Trace {
 	w.seal = true
 	ev := w.ev
 	w.mu.Unlock()
+	if n := nilConnCalls.Swap(0); n > 0 {
+		// the code under test called a method on a typed-nil connection (torn read of an interface
+		// field): in production that is a nil dereference inside net.Conn - the server dies
+		ev = append(ev, fw.Event{"ev": "Crash", "fn": "typed-nil-conn"})
+	}
+	if r.harness != "" {
+		return &fw.Trace{Status: fw.DriverError, Note: r.harness, Events: ev}
+	}
 	t := &fw.Trace{Status: fw.Realised, Events: ev, Note: r.desync}
 	// a starved process makes the watchdog observations meaningless: do not judge them
 	if lag := time.Duration(r.lagMax.Load()); lag > watchdog/3 {
